@@ -7,30 +7,24 @@ use samlang_collections::local_stacked_context::LocalStackedContext;
 use samlang_heap::PStr;
 
 fn evaluate_bin_op(operator: BinaryOperator, v1: i32, v2: i32) -> Option<i32> {
+  // Folding must compute what the target computes at run time: 32-bit wrapping arithmetic,
+  // a trap (so no folding) for division by zero and for INT_MIN / -1, and 0 for INT_MIN % -1.
   match operator {
-    BinaryOperator::MUL => Some(v1 * v2),
-    BinaryOperator::DIV => {
-      if v2 == 0 {
-        None
-      } else {
-        Some(v1 / v2)
-      }
-    }
+    BinaryOperator::MUL => Some(v1.wrapping_mul(v2)),
+    BinaryOperator::DIV => v1.checked_div(v2),
     BinaryOperator::MOD => {
       if v2 == 0 {
         None
       } else {
-        Some(v1 % v2)
+        Some(v1.wrapping_rem(v2))
       }
     }
-    BinaryOperator::PLUS => Some(v1 + v2),
-    BinaryOperator::MINUS => Some(v1 - v2),
+    BinaryOperator::PLUS => Some(v1.wrapping_add(v2)),
+    BinaryOperator::MINUS => Some(v1.wrapping_sub(v2)),
     BinaryOperator::LAND => Some(v1 & v2),
     BinaryOperator::LOR => Some(v1 | v2),
-    BinaryOperator::SHL => Some(v1 << v2),
-    BinaryOperator::SHR => {
-      Some(i32::from_be_bytes(((u32::from_be_bytes(v1.to_be_bytes())) >> v2).to_be_bytes()))
-    }
+    BinaryOperator::SHL => Some(v1.wrapping_shl(v2 as u32)),
+    BinaryOperator::SHR => Some((v1 as u32).wrapping_shr(v2 as u32) as i32),
     BinaryOperator::XOR => Some(v1 ^ v2),
     BinaryOperator::LT => Some((v1 < v2) as i32),
     BinaryOperator::LE => Some((v1 <= v2) as i32),
